@@ -692,6 +692,36 @@ def c17(tier, sc):
                 c["kind"], show(c["in"]), c["tok"], c["resume"], toks[:6], (b["toks"] or [])[:6]),
                 {"kind": "xss.c17", "a": c["in"], "expect": c["tok"], "resume": c["resume"], "reduced": c["reduced"], "idx": c["idx"]})
     rep.part("constructs.real", cases=len(cases), checked=n1)
+    # (1b) the quoted-value contexts: the opening quote lies outside the input, so the value token is the bytes up to the
+    # first such quote wherever it is (at offset 0: an empty value), and the tag goes on as after "<a "
+    items, meta = [], []
+    for ctx, q in ((2, 39), (3, 34), (4, 96)):
+        for w in vgen.all_strings(vgen.b("'\"`a> /="), 5 if big else 4):
+            if not w:
+                continue
+            at = w.index(q) if q in w else -1
+            items.append({"in": w, "ctx": ctx})
+            items.append({"in": vgen.b("<a ") + (w[at + 1:] if at >= 0 else []), "ctx": 0})
+            meta.append((ctx, w, at))
+    res = vlib.harness_map(sc, vh, "xss-toks", items)
+    n1b = 0
+    for k, (ctx, w, at) in enumerate(meta):
+        a, rst = res[2 * k], res[2 * k + 1]
+        if bad_result(a) or bad_result(rst):
+            continue
+        n1b += 1
+        toks = a["toks"] or []
+        exp = [7, 0, at if at >= 0 else len(w)]
+        ok = len(toks) >= 1 and toks[0] == exp
+        if ok and at >= 0:
+            ok = toks[1:] == [[t[0], t[1] + at + 1 - 3, t[2]] for t in (rst["toks"] or [])[1:]]
+        elif ok:
+            ok = len(toks) == 1
+        if not ok:
+            rep.violation("value context %d on %r: the value token must be %s (up to the first closing quote) and the tag must go on behind it; real tokens %s" % (
+                ctx, show(w), exp, toks[:6]), {"kind": "xss.c17", "a": w, "ctx": ctx, "expect": exp, "resume": at + 1, "reduced": w, "idx": 1})
+    rep.part("valuecontexts.real", cases=len(meta), checked=n1b)
+    n1 += n1b
     # (2) range / order / count clauses on real token traces (monitor, no algorithm)
     inputs = screen(sc, vh, rep, xss_inputs(tier, "c17"), "xss")
     inp = sc.path("c17-inputs.ndjson")
